@@ -121,6 +121,28 @@ theorem i18n_default_lang (langs : List (String × LangMap)) (dl : String) (code
     i18nFmt langs dl none code dtype params = defaultFmt ((lookupD langs dl).getD []) code dtype params := by
   simp [i18nFmt]
 
+/-- **Only the last installation counts.** After ANY history of `SetLanguagesErrsMap` calls (with or
+    without `WithLangKey`, any tables, any default language) the global formatter is the one the last
+    call describes: it reads the language under that call's key from this execution's context. -/
+theorem last_installation_wins (base : String → String → List (String × String) → String)
+    (hist : List Install) (i : Install) (ctx : List (String × String)) :
+    installedFmt base (hist ++ [i]) ctx = i18nFmt i.langs i.dflt (lookupD ctx i.langKey) := by
+  simp [installedFmt]
+
+/-- an installation without `WithLangKey` reads the documented key `lang`, whatever keys earlier
+    installations configured -/
+theorem reinstall_resets_lang_key (base : String → String → List (String × String) → String)
+    (hist : List Install) (i : Install) (ctx : List (String × String)) (hk : i.key = none) :
+    installedFmt base (hist ++ [i]) ctx = i18nFmt i.langs i.dflt (lookupD ctx "lang") := by
+  simp [installedFmt, Install.langKey, hk]
+
+/-- premises satisfiable / not vacuous: after `WithLangKey("locale")` and then a plain installation, a
+    context naming Spanish under `lang` (and English under the stale key) gets the Spanish table -/
+example : installedFmt (fun _ _ _ => "base")
+    [{ langs := [("en", [("string", [("required", "is required")])]), ("es", [("string", [("required", "es obligatorio")])])], dflt := "en", key := some "locale" },
+     { langs := [("en", [("string", [("required", "is required")])]), ("es", [("string", [("required", "es obligatorio")])])], dflt := "en" }]
+    [("lang", "es"), ("locale", "en")] "required" "string" [] = "es obligatorio" := by decide +kernel
+
 /-- **Constructor invariants hold of every issue of every execution.** Every issue is built by one
     of four constructors (failing test / Required / NotNil, coercion failure, callback error,
     Preprocess error in Validate); whatever holds of all they can build holds of every issue in the
